@@ -1,6 +1,7 @@
 package props
 
 import (
+	"time"
 	"context"
 	"fmt"
 	"sort"
@@ -210,6 +211,7 @@ func c04(tier string) []*explore.Scenario {
 	})
 	for _, kind := range []string{"Unary", "Bidi", "SStream", "CStream"} {
 		out = append(out, c04EndToEnd(kind, false), c04EndToEnd(kind, true))
+		out = append(out, withConfig([]string{"via-rewriting-proxy", "demux+chain", "services+interceptors"}, c04EndToEnd(kind, false))...)
 	}
 	for _, way := range []string{"first-message", "sendheader", "with-trailer", "concurrent-sendheader"} {
 		out = append(out, c04HeaderRace(way, 2))
@@ -327,6 +329,12 @@ func c04EndToEnd(kind string, viaInterceptor bool) *explore.Scenario {
 					ctx := context.Background()
 					if !viaInterceptor {
 						ctx = metadata.NewOutgoingContext(ctx, md)
+					}
+					if n%2 == 1 {
+						// every other call also carries a deadline (a GRPC-Timeout entry travels with the metadata)
+						var cancelDl context.CancelFunc
+						ctx, cancelDl = context.WithTimeout(ctx, time.Hour)
+						defer cancelDl()
 					}
 					h1, h2 := splitMD(hdr)
 					t1, t2 := splitMD(trl)
